@@ -1,6 +1,8 @@
 (* C02 driver.
    E <kind> <nthreads> <overlaps> <formatted-disabled> P:<id>:<thread>:<enabled>:<depth>... W:<id>:<eq>... *)
+let z_of_int i = if i = 0 then Z0 else if i > 0 then Zpos (pos_of_int i) else Zneg (pos_of_int (-i))
 let () =
+  let thr = ref 0 in
   let cases = ref 0 and specfail = ref 0 and mismatch = ref 0 and writes = ref 0 and recs = ref 0 in
   iter_lines Sys.argv.(1) (fun line ->
     match split_ws line with
@@ -22,5 +24,11 @@ let () =
           if not v.spec_ok then begin incr specfail; Printf.printf "SPECFAIL %s\n" line end
           else if not v.model_ok then begin incr mismatch; Printf.printf "MISMATCH %s\n" line end
         with Failure _ -> incr mismatch; Printf.printf "MISMATCH %s\n" line)
+    | ["T"; _kind; th; lv; _entry; _shape; w; eq] ->
+        (* T <kind> <threshold> <level> <entry point> <logger shape> <writes> <eq> *)
+        incr cases; incr thr;
+        let (sp, md) = check_threshold (z_of_int (int_of_string th)) (z_of_int (int_of_string lv)) (nat_of_int (int_of_string w)) (eq = "1") in
+        if not sp then begin incr specfail; Printf.printf "SPECFAIL %s\n" line end
+        else if not md then begin incr mismatch; Printf.printf "MISMATCH %s\n" line end
     | _ -> ());
-  Printf.printf "STATS cases=%d specfail=%d mismatch=%d drift=0 records=%d writes=%d\n" !cases !specfail !mismatch !recs !writes
+  Printf.printf "STATS cases=%d specfail=%d mismatch=%d drift=0 records=%d writes=%d threshold_cases=%d\n" !cases !specfail !mismatch !recs !writes !thr
